@@ -447,8 +447,158 @@ def inline_call(fd, c, hd, serial):
         cfg["blocks"].append(nb)
     if any(b2["id"] in [x for x in nb_["succs"]] for nb_ in cfg["blocks"]):
         cfg["blocks"].append(b2)
+    live = sorted(j for j in set(_walk(F, hroot)) | set(_walk(F, c)) if j >= off or j == c)
+    _copy_in_out(F, off, tag, hcfg, live)
+    _result_accumulator(F, off, tag, c, par, single_tail, live)
     fd.setdefault("inlined", []).append(hd["name"])
     return True
+
+
+def _declref(F, j):
+    j = _strip(F, j)
+    return j if F[j]["k"] == "DeclRef" else None
+
+
+def _copy_in_out(F, off, tag, hcfg, rng):
+    """A callee local that is a working copy of a caller variable - initialised from it (`T v = *p;` with
+    argument `&x`, already presented as `T v = x;`) and written back (`*p = v;`) before every exit, the caller
+    variable not being touched in between - is that variable: every reference is renamed, and the copy-in and
+    the copy-out become `x = x`."""
+    suffix = "~" + tag
+
+    def tagged(d):
+        return isinstance(d, str) and d.endswith(suffix)
+    for v in [j for j in rng if F[j]["k"] == "Var" and tagged(F[j].get("decl")) and F[j]["ch"] and not F[j].get("static")]:
+        init = _declref(F, F[v]["ch"][0])
+        if init is None or F[init].get("ref") not in ("local", "param") or tagged(F[init].get("decl")):
+            continue
+        X, D = F[init]["decl"], F[v]["decl"]
+        outs = []
+        for j in rng:
+            if F[j]["k"] == "Assign" and F[j].get("op") == "=":
+                a, b = _declref(F, F[j]["ch"][0]), _declref(F, F[j]["ch"][1])
+                if a is not None and b is not None and F[a].get("decl") == X and F[b].get("decl") == D:
+                    outs.append(j)
+        refs_x = [j for j in rng if F[j]["k"] == "DeclRef" and F[j].get("decl") == X]
+        if not outs or len(refs_x) != 1 + len(outs):
+            if not outs and F[v]["name"] == F[init]["name"] and D in _written_in(F, rng):
+                for j in rng:
+                    if F[j]["k"] in ("Var", "DeclRef") and F[j].get("decl") == D:
+                        F[j]["name"] = F[init]["name"] + "$copy"
+            continue
+        # address of the copy taken: not a plain working copy
+        if D in _written_decls_addr(F, rng):
+            continue
+        # every exit of the callee is preceded, in its block, by the copy-out with no later write of the copy
+        ok = True
+        preds = [hb for hb in hcfg["blocks"] if hcfg["exit"] in hb["succs"] and hb["id"] != hcfg["exit"]]
+        for hb in preds:
+            el = [e + off for e in hb["elems"] if e >= 0]
+            if any(F[e]["k"] == "Call" and F[e].get("callee") in NORETURN for e in el):
+                continue
+            pos = [i for i, e in enumerate(el) if e in outs]
+            if not pos:
+                ok = False
+                break
+            for e in el[pos[-1] + 1:]:
+                nd = F[e]
+                if nd["k"] in ("Assign", "CompoundAssign") or (nd["k"] == "Un" and nd.get("op") in ("post++", "post--", "pre++", "pre--")):
+                    t = _declref(F, nd["ch"][0])
+                    if t is not None and F[t].get("decl") == D:
+                        ok = False
+        if not ok or not preds:
+            # a copy of the caller's variable that is not (provably) written back is a different variable: it
+            # must not be mistaken for the caller's one because it bears the same name
+            if F[v]["name"] == F[init]["name"]:
+                for j in rng:
+                    if F[j]["k"] in ("Var", "DeclRef") and F[j].get("decl") == D:
+                        F[j]["name"] = F[init]["name"] + "$copy"
+            continue
+        for j in rng:
+            if F[j]["k"] in ("Var", "DeclRef") and F[j].get("decl") == D:
+                F[j]["decl"] = X
+                F[j]["name"] = F[init]["name"]
+                if F[j]["k"] == "DeclRef":
+                    F[j]["ref"] = F[init]["ref"]
+
+
+def _written_in(F, rng):
+    out = set()
+    for j in rng:
+        nd = F[j]
+        if nd["k"] in ("Assign", "CompoundAssign") or (nd["k"] == "Un" and nd.get("op") in ("post++", "post--", "pre++", "pre--", "&")):
+            t = _declref(F, nd["ch"][0])
+            if t is not None:
+                out.add(F[t].get("decl"))
+    return out
+
+
+def _written_decls_addr(F, rng):
+    out = set()
+    for j in rng:
+        if F[j]["k"] == "Un" and F[j].get("op") == "&":
+            t = _declref(F, F[j]["ch"][0])
+            if t is not None:
+                out.add(F[t].get("decl"))
+    return out
+
+
+def _result_accumulator(F, off, tag, c, par, single_tail, rng):
+    """`y += helper(..)` where the helper returns a local that starts at 0 and is only ever added to: the
+    additions are additions to y (the helper cannot see y), the call site adds 0."""
+    if not single_tail or F[c]["k"] != "Paren":
+        return
+    suffix = "~" + tag
+    a = _declref(F, F[c]["ch"][0])
+    if a is None or not str(F[a].get("decl", "")).endswith(suffix):
+        return
+    A = F[a]["decl"]
+    q = par[c]
+    while q is not None and F[q]["k"] in ("Paren", "ICast", "Cast"):
+        q = par[q]
+    if q is None or F[q]["k"] != "CompoundAssign" or F[q].get("op") != "+=" or par[q] is None or F[par[q]]["k"] not in EXPR_STMT_PARENTS:
+        return
+    if c not in set(_walk(F, F[q]["ch"][1])):
+        return
+    y = _declref(F, F[q]["ch"][0])
+    if y is None or F[y].get("ref") not in ("local", "param"):
+        return
+    Y = F[y]["decl"]
+    if any(F[j]["k"] == "DeclRef" and F[j].get("decl") == Y for j in rng):
+        return
+    cpar = {}
+    for j in rng:
+        for x in F[j]["ch"]:
+            cpar[x] = j
+    vars_ = [j for j in rng if F[j]["k"] == "Var" and F[j].get("decl") == A]
+    if len(vars_) != 1 or F[vars_[0]].get("static") or not F[vars_[0]]["ch"] or _constval(F, F[vars_[0]]["ch"][0], {}) != 0:
+        return
+    for j in rng:
+        if F[j]["k"] == "DeclRef" and F[j].get("decl") == A and j != a:
+            q2 = cpar.get(j)
+            while q2 is not None and F[q2]["k"] in ("Paren", "ICast", "Cast"):
+                q2 = cpar.get(q2)
+            if q2 is None:
+                return
+            upd = (F[q2]["k"] == "CompoundAssign" and F[q2].get("op") == "+=" and _declref(F, F[q2]["ch"][0]) == j) or \
+                  (F[q2]["k"] == "Un" and F[q2].get("op") in ("post++", "pre++"))
+            if not upd or cpar.get(q2) is None or F[cpar[q2]]["k"] not in EXPR_STMT_PARENTS:
+                return
+    for j in rng:
+        if F[j]["k"] in ("Var", "DeclRef") and F[j].get("decl") == A:
+            F[j]["decl"] = Y
+            F[j]["name"] = F[y]["name"]
+            if F[j]["k"] == "DeclRef":
+                F[j]["ref"] = F[y]["ref"]
+    v = vars_[0]
+    nref = len(F)
+    F.append({"k": "DeclRef", "ref": F[y]["ref"], "name": F[y]["name"], "decl": Y, "t": F[y].get("t", ""), "ch": [], "l": F[v].get("l"), "inl": tag})
+    if "ct" in F[y]:
+        F[nref]["ct"] = F[y]["ct"]
+    F[v]["ch"] = [nref]
+    keep = {k_: v_ for k_, v_ in F[c].items() if k_ in ("l", "t", "ct", "inl")}
+    F[c] = {"k": "Int", "v": 0, "cv": 0, "ch": []}
+    F[c].update(keep)
 
 
 def inline_new_functions(unit_name, d, anchors):
